@@ -114,6 +114,8 @@ func applyChunkOpt(cp *refpq.ChunkPlan, name string) {
 		cp.EncodingsWithRLE = true
 	case "chunk_key_value":
 		cp.KeyValue = true
+	case "bitpacked_labels_without_levels":
+		cp.BitPackedLabels = true
 	}
 }
 
@@ -296,12 +298,12 @@ func singleDevs(t *sut.Target, ct content, planCap int, reduced bool) []Dev {
 			for _, st := range []int{0, 2, 3, 4} {
 				devs = append(devs, Dev{Kind: "stats", RG: gi, Col: ci, Arg: st})
 			}
-			for _, name := range []string{"crc", "file_offset_zero", "encoding_stats", "chunk_statistics", "encodings_with_rle", "chunk_key_value"} {
+			for _, name := range []string{"crc", "file_offset_zero", "encoding_stats", "chunk_statistics", "encodings_with_rle", "chunk_key_value", "bitpacked_labels_without_levels"} {
 				devs = append(devs, Dev{Kind: "chunkopt", RG: gi, Col: ci, Name: name})
 			}
 		}
 	}
-	for _, name := range []string{"crc", "file_offset_zero", "encoding_stats", "chunk_statistics", "encodings_with_rle", "chunk_key_value"} {
+	for _, name := range []string{"crc", "file_offset_zero", "encoding_stats", "chunk_statistics", "encodings_with_rle", "chunk_key_value", "bitpacked_labels_without_levels"} {
 		devs = append(devs, Dev{Kind: "chunkopt-all", Name: name})
 	}
 	for _, name := range []string{"created_by", "key_value", "column_orders", "utf8", "root_name", "unknown_ids", "version2", "sorting_columns"} {
